@@ -72,8 +72,8 @@ def gen(rng, tier, index):
     kind = gens.pick(rng, KINDS)
     X = _matrix(rng, n, m, kind)
     unit = 1.0
-    if rng.random() < 0.25:
-        unit = float(2.0 ** int(rng.integers(-24, 14)))
+    if rng.random() < 0.25 or (kind == "copies" and rng.random() < 0.5):
+        unit = float(2.0 ** int(rng.integers(-24, 14))) if kind != "copies" else float(2.0 ** int(rng.integers(8, 15)))
         X = X * unit
     spec = {"dir": direction, "cls": cls, "kw": {}}
     kw = spec["kw"]
@@ -81,7 +81,7 @@ def gen(rng, tier, index):
     rank = int(np.linalg.matrix_rank(X))
     kw["k"] = int(gens.pick(rng, (1, 1, 2, 3)))
     kw["k"] = min(kw["k"], min(n, m) - 1)
-    kw["recompute_every"] = int(gens.pick(rng, (1, 1, 0, 2, 3)))
+    kw["recompute_every"] = int(gens.pick(rng, (1, 1, 0, 2, 3) if kind != "copies" else (1, 2, 2, 3, 3)))
     if rng.random() < 0.2:
         kw["tolerance"] = float(gens.pick(rng, (1e-10, 1e-8)))
     y = None
@@ -129,9 +129,10 @@ def _tolerance_clear(spec, X, seq):
     R = A.copy()
     for t, i in enumerate(seq):
         r = float(np.linalg.norm(R[i]))
-        if r <= 1e-13 * float(np.linalg.norm(A[i])) and r < tol / 100:
+        tol_i = max(tol, 100 * np.finfo(float).eps) * max(1.0, float(np.linalg.norm(A[i])))  # the code's threshold for this item
+        if r < tol_i / 100 and r <= 1e-12 * float(np.linalg.norm(A[i])):
             continue  # numerically an exact copy of selected items: zero for the code and for the oracle alike
-        if r < 100 * tol:
+        if r < 100 * tol_i:
             return False  # the code treats it as zero (or nearly does), the documented projection does not
         q = R[i] / r
         R = R - np.outer(R @ q, q)
